@@ -458,6 +458,27 @@ func (p *Prog) refineEnv1(env ienv, cond ast.Expr, val bool) ienv {
 	if !val {
 		op = negOp(op)
 	}
+	// pointer compared with nil: tracked as key#nil in {0 = nil, 1 = non-nil}
+	for _, pair := range [][2]ast.Expr{{be.X, be.Y}, {be.Y, be.X}} {
+		if id, ok := ast.Unparen(pair[1]).(*ast.Ident); ok && id.Name == "nil" && p.objOf(id) == types.Universe.Lookup("nil") {
+			if k := p.exprKey(pair[0]); k != "" && (op == token.EQL || op == token.NEQ) {
+				want := big.NewInt(1)
+				if op == token.EQL {
+					want = big.NewInt(0)
+				}
+				out := env.clone()
+				cur, have := out[k+"#nil"]
+				if have {
+					if pt, isPt := cur.point(); isPt && pt.Cmp(want) != 0 {
+						return bottomEnv()
+					}
+				}
+				out[k+"#nil"] = ival{lo: want, hi: want}
+				return out
+			}
+			return env
+		}
+	}
 	if t := p.typeOf(be.X); t == nil || !isIntType(t) {
 		return env
 	}
@@ -728,7 +749,8 @@ func (p *Prog) envStep(s ast.Stmt, cur ienv) ienv {
 			if _, kept := exits[k]; kept {
 				continue
 			}
-			if killed(p.assignedKeys(x), k) {
+			if killed(p.assignedKeys(x), k) && p.assignsTo(x, k) && !strings.ContainsAny(k, "[.") {
+				// (only plain scalar variables: ivalLoop does not see assignments to the aggregate a limb or field belongs to)
 				if r := p.ivalLoop(x, v, k); r.lo != nil || r.hi != nil {
 					exits[k] = r
 				}
@@ -811,6 +833,17 @@ func (p *Prog) envStep(s ast.Stmt, cur ienv) ienv {
 					continue
 				}
 				kill(k)
+				delete(out, k+"#nil")
+				if t := p.typeOf(l); t != nil {
+					if _, isPtr := t.Underlying().(*types.Pointer); isPtr {
+						switch p.nilness(x.Rhs[i], cur) {
+						case 1:
+							out[k+"#nil"] = ival{lo: big.NewInt(1), hi: big.NewInt(1)}
+						case 0:
+							out[k+"#nil"] = ival{lo: big.NewInt(0), hi: big.NewInt(0)}
+						}
+					}
+				}
 				if t := p.typeOf(l); t == nil || !isIntType(t) {
 					if call, ok := ast.Unparen(x.Rhs[i]).(*ast.CallExpr); ok {
 						if p.zeroLimbsResult(call, cur) {
@@ -873,6 +906,23 @@ func (p *Prog) envStep(s ast.Stmt, cur ienv) ienv {
 					}
 					if i == 0 && (zeroIn || (p.ivZeroCoef && p.calleeName(call) == "Decimal.decompose")) {
 						p.setLimbsZero(out, l)
+					}
+					if i == 0 {
+						// q, r = x.divK(): the quotient's top word does not exceed the dividend's
+						if sel, ok := call.Fun.(*ast.SelectorExpr); ok && len(call.Args) == 0 {
+							cn := p.calleeName(call)
+							if dot := strings.Index(cn, "."); dot > 0 && strings.HasPrefix(cn, "uint") && strings.HasPrefix(cn[dot+1:], "div") {
+								n := limbsOf(p.typeOf(sel.X))
+								if rk := p.exprKey(sel.X); rk != "" && n > 1 && n == limbsOf(p.typeOf(l)) {
+									if v, ok := cur[rk+"["+itoa(n-1)+"]"]; ok && v.hi != nil {
+										top := k + "[" + itoa(n-1) + "]"
+										if _, have := out[top]; !have {
+											out[top] = ival{lo: big.NewInt(0), hi: v.hi}
+										}
+									}
+								}
+							}
+						}
 					}
 					if i == 1 && zeroIn {
 						// the remainder of dividing zero
@@ -1430,4 +1480,45 @@ func (p *Prog) calleeSummary(call *ast.CallExpr, env ienv) []ivResult {
 		}
 	}
 	return out
+}
+
+// nilness of a pointer expression: 1 non-nil, 0 nil, -1 unknown.
+func (p *Prog) nilness(e ast.Expr, env ienv) int {
+	e = ast.Unparen(e)
+	switch x := e.(type) {
+	case *ast.Ident:
+		if x.Name == "nil" && p.objOf(x) == types.Universe.Lookup("nil") {
+			return 0
+		}
+		if k := p.exprKey(x); k != "" {
+			if v, ok := env[k+"#nil"]; ok {
+				if pt, isPt := v.point(); isPt {
+					return int(pt.Int64())
+				}
+			}
+		}
+	case *ast.UnaryExpr:
+		if x.Op == token.AND {
+			return 1
+		}
+	case *ast.CallExpr:
+		cn := p.calleeName(x)
+		if cn == "builtin.new" {
+			return 1
+		}
+		// math/big setters return their receiver
+		if strings.HasPrefix(cn, "math/big.") {
+			if sel, ok := x.Fun.(*ast.SelectorExpr); ok {
+				if t := p.typeOf(sel.X); t != nil {
+					if _, isPtr := t.Underlying().(*types.Pointer); isPtr {
+						return p.nilness(sel.X, env)
+					}
+				}
+			}
+			if strings.HasPrefix(cn, "math/big.New") {
+				return 1
+			}
+		}
+	}
+	return -1
 }
